@@ -54,4 +54,13 @@ CHECKS['C03'] = dict(
          'base cases must show all their effects, so the effect log is not vacuous.',
     note='All processes are virtual children at the single subprocess.call seam (an effect outside the sandbox needs a process); only '
          'defects the manual places before execution are used.')
+CHECKS['C04'] = dict(
+    level='model_checking',
+    technique='explicit exploration of the sandbox lifecycle machine (every ending x mode x polluting behaviour) on the real CLI, file-system observed by virtual children at each lifecycle state',
+    text='For every ending (each single fault of each step in each phase, pass, failing assertion, unstartable action) x {normal, --keep, --act} x '
+         'polluting behaviour (cd to tmp/new/later-deleted dir, env changes in both sets, read-only files, children writing to tmp/, '
+         'instructions needing internal temp files) x action output size, observer children record cwd and the sandbox tree at [setup], '
+         '[before-assert] and [cleanup]; afterwards the sandbox root, stdout path, cwd and environ of the caller are compared with the '
+         'documented lifecycle.',
+    note='uid 0: permission cases run but cannot block removal; virtual children; sandbox root redirected via tempfile.tempdir.')
 NOT_APPLICABLE = {}
